@@ -81,6 +81,75 @@ Section Complete.
         * simpl in NF. discriminate.
   Qed.
 
+  (* the same behind an io.LimitReader whose bound is exactly the missing bytes (LimitedStorage) *)
+  Lemma read_full_exact_lim : forall evs fuel acc N want,
+    nfail evs = 0 -> length evs < fuel ->
+    N = Z.of_nat (length (stream evs)) -> want = length acc + length (stream evs) ->
+    exists evs' err',
+      read_full (vr_read comb) fuel (mkVr (mkBase evs (Some N)) N acc None false) want acc
+      = ((acc ++ stream evs, None), mkVr (mkBase evs' (Some 0%Z)) 0 (acc ++ stream evs) err' false) /\
+      stream evs' = [] /\ nfail evs' = 0 /\ length evs' <= length evs /\
+      (err' = None \/ err' = Some EEof).
+  Proof.
+    induction evs as [|e r IH]; intros fuel acc N want NF Fu EN EW.
+    - simpl in *. subst. exists [], None. rewrite Nat.add_0_r, app_nil_r.
+      destruct fuel; simpl; rewrite Nat.leb_refl; repeat split; auto.
+    - destruct (stream (e :: r)) as [|c0 s0] eqn:ES.
+      + (* nothing missing: the loop does not run *)
+        simpl in EN, EW. subst. exists (e :: r), None. rewrite Nat.add_0_r, app_nil_r.
+        destruct fuel; simpl; rewrite Nat.leb_refl; repeat split; auto.
+      + destruct fuel as [|f]; [simpl in Fu; lia|]. simpl in Fu.
+        assert (Wgt : (want <=? length acc) = false).
+        { apply Nat.leb_gt. subst want. simpl. lia. }
+        assert (Npos : (N <=? 0)%Z = false).
+        { apply Z.leb_gt. subst N. simpl length. lia. }
+        assert (K : want - length acc = length (c0 :: s0)) by (subst want; lia).
+        cbn [read_full]. rewrite Wgt.
+        unfold vr_read at 1. cbn [v_err v_N v_base v_hashed v_verified]. rewrite Npos.
+        rewrite K. subst N. rewrite clamp_same.
+        unfold base_read. cbn [b_lim b_evs]. rewrite Npos, clamp_same.
+        destruct e as [d| |].
+        * (* Data d *)
+          simpl in ES. simpl in NF.
+          assert (Ld : (length d <=? length (c0 :: s0)) = true).
+          { apply Nat.leb_le. rewrite <- ES, app_length. lia. }
+          cbn [script_read]. rewrite Ld.
+          assert (Rest : (Z.of_nat (length (c0 :: s0)) - Z.of_nat (length d) = Z.of_nat (length (stream r)))%Z).
+          { rewrite <- ES, app_length. lia. }
+          assert (Go : forall fuel', length r < fuel' -> exists evs' err',
+                     read_full (vr_read comb) fuel'
+                       (mkVr (mkBase r (Some (Z.of_nat (length (stream r))))) (Z.of_nat (length (stream r))) (acc ++ d) None false) want (acc ++ d)
+                     = ((acc ++ c0 :: s0, None), mkVr (mkBase evs' (Some 0%Z)) 0 (acc ++ c0 :: s0) err' false) /\
+                     stream evs' = [] /\ nfail evs' = 0 /\ length evs' <= length r /\
+                     (err' = None \/ err' = Some EEof)).
+          { intros fuel' Fu'. destruct (IH fuel' (acc ++ d) (Z.of_nat (length (stream r))) want NF Fu' eq_refl) as (evs' & err' & E1 & E2).
+            - subst want. rewrite app_length, <- ES, app_length. lia.
+            - exists evs', err'. rewrite <- ES, app_assoc. split; [exact E1|exact E2]. }
+          destruct comb eqn:Cb.
+          -- destruct r as [|[d'| |] r'].
+             ++ (* data together with EOF *)
+                simpl in ES. rewrite app_nil_r in ES. subst d.
+                cbn [length app]. rewrite Z.sub_diag. cbn [is_eof andb Z.gtb Z.compare set_err v_base v_N v_hashed v_verified].
+                assert (Wl : (want <=? length (acc ++ c0 :: s0)) = true).
+                { apply Nat.leb_le. subst want. rewrite app_length. lia. }
+                rewrite Wl. exists [], (Some EEof). repeat split; auto; try (simpl; lia).
+             ++ rewrite Rest. destruct (Go f) as (evs' & err' & E1 & E2 & E3 & E4 & E5); [simpl in *; lia|].
+                exists evs', err'. split; [exact E1|]. repeat split; auto; try (simpl in *; lia).
+             ++ rewrite Rest. destruct (Go f) as (evs' & err' & E1 & E2 & E3 & E4 & E5); [simpl in *; lia|].
+                exists evs', err'. split; [exact E1|]. repeat split; auto; try (simpl in *; lia).
+             ++ simpl in NF. discriminate.
+          -- rewrite Rest. destruct (Go f) as (evs' & err' & E1 & E2 & E3 & E4 & E5); [simpl in *; lia|].
+             exists evs', err'. split; [exact E1|]. repeat split; auto; try (simpl in *; lia).
+        * (* Zero *)
+          simpl in ES, NF. cbn [script_read length app]. rewrite Z.sub_0_r, app_nil_r.
+          destruct (IH f acc (Z.of_nat (length (stream r))) want NF) as (evs' & err' & E1 & E2 & E3 & E4 & E5).
+          -- simpl in Fu; lia.
+          -- reflexivity.
+          -- subst want. rewrite ES. reflexivity.
+          -- rewrite ES in *. exists evs', err'. split; [exact E1|]. repeat split; auto; try (simpl; lia).
+        * simpl in NF. discriminate.
+  Qed.
+
   (* ensureEOF on what is left of such a reader (only 0-byte reads) *)
   Lemma ensure_eof_exhausted : forall evs fuel h,
     stream evs = [] -> nfail evs = 0 -> length evs < fuel ->
@@ -234,5 +303,80 @@ Section Complete.
     pose proof (copy_buffer_complete fuel evs oci_bufsz (d_dg d) oci_bufsz_pos NF V D Fu) as C.
     destruct (copy_buffer H comb true fuel (mkBase evs None) oci_bufsz (d_dg d) (Z.of_nat (length (stream evs)))) as [[e out] v].
     simpl in C. inversion C; subst. reflexivity.
+  Qed.
+
+  Lemma file_bufsz_pos : 1 <= file_bufsz.
+  Proof. apply Nat.leb_le. vm_compute. reflexivity. Qed.
+
+  (* file.Store, named push: a fresh name and a well-behaved reader of the right bytes *)
+  Theorem file_push_complete fuel s name path d evs :
+    name <> [] -> name_in name (f_names s) = false ->
+    nfail evs = 0 -> valid_digest (d_dg d) = true ->
+    d_dg d = digest_of H (alg_of (d_dg d)) (stream evs) -> d_sz d = Z.of_nat (length (stream evs)) ->
+    ev_weight evs < fuel ->
+    file_push H comb true fuel s name path d evs
+    = (None, mkFs (assoc_set (f_files s) path (stream evs)) (name :: f_names s)
+                  (assoc_set (f_d2p s) (d_dg d) path) (f_fb s)).
+  Proof.
+    intros Nn Nin NF V D Sz Fu. unfold file_push. destruct name as [|c n0]; [congruence|].
+    rewrite Nin, Sz.
+    pose proof (copy_buffer_complete fuel evs file_bufsz (d_dg d) file_bufsz_pos NF V D Fu) as C.
+    destruct (copy_buffer H comb true fuel (mkBase evs None) file_bufsz (d_dg d) (Z.of_nat (length (stream evs)))) as [[e out] v].
+    simpl in C. inversion C; subst. reflexivity.
+  Qed.
+
+  (* ---------------------------------------------------------------- behind LimitedStorage *)
+  Lemma ensure_eof_limit0 evs fuel h : 1 <= fuel ->
+    read_full (tee_read comb) fuel (mkBase evs (Some 0%Z), h) 1 []
+    = (([], Some EEof), (mkBase evs (Some 0%Z), h)).
+  Proof. destruct fuel; [lia|]. intros _. cbn. rewrite app_nil_r. reflexivity. Qed.
+
+  Theorem read_all_complete_lim fixed fuel evs dg :
+    nfail evs = 0 -> valid_digest dg = true -> dg = digest_of H (alg_of dg) (stream evs) ->
+    ev_weight evs < fuel ->
+    fst (read_all H comb fixed fuel (mkBase evs (Some (Z.of_nat (length (stream evs))))) dg
+                  (Z.of_nat (length (stream evs))))
+    = (None, stream evs).
+  Proof.
+    intros NF V D Fu. pose proof (length_le_weight evs) as LW.
+    unfold read_all. assert (Z0 : (Z.of_nat (length (stream evs)) <? 0)%Z = false) by (apply Z.ltb_ge; lia).
+    rewrite Z0. unfold new_vr, new_vr_gen. rewrite V, Z0, andb_false_r. cbn [negb].
+    rewrite Nat2Z.id.
+    destruct (read_full_exact_lim evs fuel [] (Z.of_nat (length (stream evs))) (length (stream evs)) NF)
+      as (evs' & err' & E1 & E2 & E3 & E4 & E5); try reflexivity; try lia.
+    rewrite E1. cbn [app].
+    unfold vr_verify. cbn [v_verified v_err v_N v_base v_hashed].
+    unfold ensure_eof. rewrite ensure_eof_limit0 by lia. cbn [negb].
+    assert (Vd : verified H dg (stream evs) = true).
+    { unfold verified. rewrite <- D. apply str_eqb_refl. }
+    rewrite Vd. destruct E5 as [-> | ->]; reflexivity.
+  Qed.
+
+  (* LimitedStorage over cas.Memory (= the file store's fallback for unnamed content) *)
+  Theorem limited_mem_push_complete fixed fuel limit m d evs :
+    (d_sz d <= limit)%Z -> mem_get m d = None -> nfail evs = 0 -> valid_digest (d_dg d) = true ->
+    d_dg d = digest_of H (alg_of (d_dg d)) (stream evs) -> d_sz d = Z.of_nat (length (stream evs)) ->
+    ev_weight evs < fuel ->
+    limited_push (mem_push H comb fixed fuel) limit m d evs = (None, (d, stream evs) :: m).
+  Proof.
+    intros Lm G NF V D Sz Fu. unfold limited_push.
+    assert (Q : (d_sz d >? limit)%Z = false) by (rewrite Z.gtb_ltb; apply Z.ltb_ge; lia). rewrite Q.
+    unfold mem_push. rewrite G, Sz.
+    pose proof (read_all_complete_lim fixed fuel evs (d_dg d) NF V D Fu) as C.
+    destruct (read_all H comb fixed fuel (mkBase evs (Some (Z.of_nat (length (stream evs))))) (d_dg d)
+                       (Z.of_nat (length (stream evs)))) as [[e buf] v].
+    simpl in C. inversion C; subst. reflexivity.
+  Qed.
+
+  Theorem file_push_fallback_complete fuel s path d evs :
+    (d_sz d <= defaultFallbackPushSizeLimit)%Z -> mem_get (f_fb s) d = None ->
+    nfail evs = 0 -> valid_digest (d_dg d) = true ->
+    d_dg d = digest_of H (alg_of (d_dg d)) (stream evs) -> d_sz d = Z.of_nat (length (stream evs)) ->
+    ev_weight evs < fuel ->
+    file_push H comb true fuel s [] path d evs
+    = (None, mkFs (f_files s) (f_names s) (f_d2p s) ((d, stream evs) :: f_fb s)).
+  Proof.
+    intros Lm G NF V D Sz Fu. unfold file_push.
+    rewrite (limited_mem_push_complete true fuel _ _ _ _ Lm G NF V D Sz Fu). reflexivity.
   Qed.
 End Complete.
